@@ -125,8 +125,21 @@ package meshops
 //@   props C01
 //@ func FlatNormalsTransformer.Transform frameonly
 //@   props C01
-//@ func FlatNormals frameonly
-//@   props C01
+//@ func FlatNormals
+//@   props C01 C02 C03
+//@   requires modeling.wf(m) && m.topology == modeling.TriangleTopology && has(m.v3Data, modeling.PositionAttribute)
+//@   returns r
+//@   ensures [C03] only_the_normal_attribute_changes: fresh(r.v3Data) && r.v1Data == m.v1Data && r.v2Data == m.v2Data && r.v4Data == m.v4Data &&
+//@      r.indices == m.indices && r.materials == m.materials && r.topology == m.topology &&
+//@      (forall k string :: k != modeling.NormalAttribute ==> (has(r.v3Data, k) <==> has(m.v3Data, k)) && (has(m.v3Data, k) ==> r.v3Data[k] == m.v3Data[k]))
+//@   ensures [C02] one_normal_per_vertex: len(m.v3Data[modeling.PositionAttribute]) > 0 ==> has(r.v3Data, modeling.NormalAttribute) && len(r.v3Data[modeling.NormalAttribute]) == len(m.v3Data[modeling.PositionAttribute])
+//@   loop 1:
+//@     invariant [C02] one_slot_per_vertex: len(normals) == len(m.v3Data[modeling.PositionAttribute]) && fresh(normals)
+//@   loop 2:
+//@     invariant [C02] one_slot_per_vertex: len(normals) == len(m.v3Data[modeling.PositionAttribute]) && fresh(normals)
+//@     invariant [C02] whole_triangles: 0 <= triIndex && triIndex % 3 == 0 && triIndex <= len(m.indices)
+//@   loop 3:
+//@     invariant [C02] one_slot_per_vertex: len(normals) == len(m.v3Data[modeling.PositionAttribute]) && fresh(normals)
 //@ func FlipTriangleWindingTransformer.Transform frameonly
 //@   props C01
 //@ func LaplacianSmoothTransformer.Transform frameonly
